@@ -48,6 +48,7 @@ def filters():
         ("DecomposeTransformedComponents", DecomposeTransformedComponentsFilter, (), {}),
         ("FlattenComponents", FlattenComponentsFilter, (), {}),
         ("Transformations", TransformationsFilter, (), {"OffsetX": 10, "ScaleX": 50}),
+        ("Transformations[origin]", TransformationsFilter, (), {"ScaleY": 50, "Slant": 10, "Origin": None}),
         ("PropagateAnchors", PropagateAnchorsFilter, (), {}),
         ("SkipExportGlyphs", SkipExportGlyphsFilter, "skip", {}),
         ("SkipExportGlyphs[]", SkipExportGlyphsFilter, ([],), {}),
@@ -65,6 +66,9 @@ def make_font(rng, lib, color=False, dotted=False):
                               classes=["identity", "scale", "shear", "mirror_x", "general_small"])
     for i, g in enumerate(desc["glyphs"]):
         g["unicodes"] = [0x61 + i]
+    # font-level metrics differ from font to font (a filter must not remember them)
+    desc["info"] = {"capHeight": rng.choice([700, 600, 650, 720, 0]), "xHeight": rng.choice([500, 450, 520, 380]),
+                    "ascender": rng.choice([800, 750]), "descender": rng.choice([-200, -250]), "unitsPerEm": rng.choice([1000, 2048])}
     if dotted:
         desc["glyphs"] = [g for g in desc["glyphs"] if g["name"] != "acutecomb"]
         for g in desc["glyphs"]:
@@ -103,7 +107,7 @@ def explore(ctx):
     rng = ctx.subrng("filters")
     flist = filters()
     cases, meta = [], []
-    for i in range(ctx.budget(78, 520)):
+    for i in range(ctx.budget(84, 560)):
         fname, cls, args, kwargs = flist[i % len(flist)]
         lib = ["ufoLib2", "defcon"][(i // len(flist)) % 2]
         color = fname == "ExplodeColorLayerGlyphs"
@@ -115,6 +119,8 @@ def explore(ctx):
             args = ([n for n in names if rng.random() < 0.4] or names[:1],)
         inc_kind = rng.choice(["all", "all", "include", "exclude", "predicate"])
         kw = dict(kwargs)
+        if "Origin" in kw and kw["Origin"] is None:
+            kw["Origin"] = rng.randint(0, 4)
         included = set(names)
         sub = [n for n in names if rng.random() < 0.5]
         if inc_kind == "include":
